@@ -26,6 +26,20 @@ func asRename(newName string) callMigrator {
 	}
 }
 
+// migrates a call to DATEDIF whose units y, m and d are case-insensitive, whereas those of datetime_diff are not and
+// its m means minutes
+func asDateDif() callMigrator {
+	return func(funcName string, params []string) (string, error) {
+		if len(params) == 3 {
+			switch strings.ToLower(params[2]) {
+			case `"y"`, `"m"`, `"d"`:
+				params = []string{params[0], params[1], strings.ToUpper(params[2])}
+			}
+		}
+		return renderCall(`datetime_diff`, params)
+	}
+}
+
 // migrates a function call using a template
 func asTemplate(template string) callMigrator {
 	return func(funcName string, params []string) (string, error) {
@@ -146,7 +160,7 @@ var callMigrators = map[string]callMigrator{
 	"code":              asIs(),
 	"concatenate":       asJoin(` & `, precConcatenation),
 	"date":              asRename(`date_from_parts`),
-	"datedif":           asRename(`datetime_diff`),
+	"datedif":           asDateDif(),
 	"datevalue":         asRename(`date`),
 	"day":               asTemplate(`format_date(%s, "D")`),
 	"days":              asTemplate(`datetime_diff(%[2]s, %[1]s, "D")`),
